@@ -288,6 +288,12 @@ class MixedIntegrator(Integrator):
                                 upper_bound_crossed = True
                                 y[idx] = initial_values[shape.symbol]
 
+                        if not shape.lower_bound is None:
+                            idx = [str(sym) for sym in list(self._system_of_shapes.x_)].index(str(shape.symbol))
+                            lower_bound_numeric = float(shape.lower_bound.evalf(subs=self._locals))
+                            if y[idx] < lower_bound_numeric:
+                                y[idx] = initial_values[shape.symbol]
+
 
                 #
                 #    evaluate to numeric values those ODEs that are solved analytically
